@@ -66,9 +66,15 @@ class Check(core.CheckBase):
         data = self.corpus[name][case['seed_index']] if 'hex' not in case else bytes.fromhex(case['hex'])
         try:
             obj, _ = cls.parse_immutable(data)
-        except Exception:  # pylint: disable=broad-except
+        except Exception as e:  # pylint: disable=broad-except
             self.stats['seed_no_longer_accepted'] += 1
-            return []
+            if 'mutant_hex' in case or 'hex' in case:
+                return []
+            # the committed corpus holds valid encodings only (what the repository's own tests compose and parse, accepted on
+            # the pinned tree): one that is refused now is a valid message the parser of its own type no longer accepts
+            return [self.violation('recorded-encoding-rejected|%s|%s' % (name.split(':')[1], type(e).__name__),
+                                   '%s refuses the valid encoding %s.. of the seed corpus: %r' % (name.split(':')[1], data[:32].hex(), e),
+                                   {'kind': 'seed', 'cls': name, 'seed_index': case['seed_index'], 'only': 'parsed'})]
         rng = random.Random('C01/%s/%s/%s' % (self.seed, name, case['seed_index']))
         replay = {'kind': 'seed', 'cls': name, 'seed_index': case['seed_index'], 'hex': data.hex()}
         if case.get('only') in (None, 'parsed'):
